@@ -100,7 +100,7 @@ Arith == {"pos", "neg", "add", "radd", "sub", "rsub", "mul", "rmul", "truediv", 
           "floordiv", "rfloordiv", "pow", "rpow"}
 Unary == {"pos", "neg"}
 FullOps == {<<a, "none">> : a \in Unary}
-           \cup {<<a, t>> : a \in Arith \ Unary, t \in {"i2", "i3", "im1", "f05", "f2"}}
+           \cup {<<a, t>> : a \in Arith \ Unary, t \in {"i2", "i3", "im1", "f05", "f3"}}      \* (3.0: a float that is not a power of two - x / 3.0 is not x * (1 / 3.0))
            \cup {<<"cols", t>> : t \in {"c21", "c1", "c12"}}
 SmallOps == {<<"neg", "none">>, <<"add", "i2">>, <<"rsub", "i3">>, <<"mul", "f05">>,
              <<"rfloordiv", "i3">>, <<"cols", "c21">>, <<"cols", "c1">>}
